@@ -1358,12 +1358,18 @@ class PolyhedralTermList(TermList):  # noqa: WPS338
         logging.debug("Vars_to_elim %s \nTerm %s \nContext %s " % (vars_to_elim, term, context))
         conflict_vars = list_intersection(vars_to_elim, term.vars)
         conflict_coeff = {var: term.get_coefficient(var) for var in conflict_vars}
+        # the auxiliary variable that stands for the conflict part of the term must not clash with a variable in use
+        used_names = {var.name for var in list_union(list_union(term.vars, context.vars), vars_to_elim)}
+        aux_name = "_"
+        while aux_name in used_names:
+            aux_name += "_"
+        aux_var = Var(aux_name)
         new_term = term.copy()
         for var in conflict_vars:  # noqa: VNE002 variable name 'var' should be clarified
             new_term = new_term.remove_variable(var)
-        new_term.variables[Var("_")] = 1
+        new_term.variables[aux_var] = 1
         # modify the context
-        subst_term_vars = {Var("_"): 1.0 / conflict_coeff[conflict_vars[0]]}
+        subst_term_vars = {aux_var: 1.0 / conflict_coeff[conflict_vars[0]]}
         for var in conflict_vars:  # noqa: VNE002 variable name 'var' should be clarified
             if var != conflict_vars[0]:
                 subst_term_vars[var] = -conflict_coeff[var] / conflict_coeff[conflict_vars[0]]
@@ -1372,7 +1378,7 @@ class PolyhedralTermList(TermList):  # noqa: WPS338
             [el.copy().substitute_variable(conflict_vars[0], subst_term) for el in context.terms]
         )
         # now we use tactic 1
-        new_elims = list_diff(list_union(vars_to_elim, [Var("_")]), [conflict_vars[0]])
+        new_elims = list_diff(list_union(vars_to_elim, [aux_var]), [conflict_vars[0]])
         try:
             result, count = PolyhedralTermList._tactic_1(new_term, new_context, new_elims, refine)
         except ValueError as e:  # noqa: WPS329 Found useless `except` case
